@@ -17,22 +17,31 @@ def Within (cfg : Cfg) (kv : KV) : Prop :=
   (∀ m, cfg.maxNodes = some m → kv.nodes.length ≤ m) ∧ (∀ m, cfg.maxEdges = some m → kv.edges.length ≤ m)
 
 /-- what holds of the shared state while a thread is inside a call, about to execute `pc` -/
-def MidOK (cfg : Cfg) (op : Op) (pc : Pc) (l : Local) (s : State) : Prop :=
-  match pc with
-  | .check => Counted s
-  | .log => Counted s ∧ (op.kind = .create → quotaOf cfg op s = .ok)
-  | .store => Counted s ∧ (op.kind = .create → quotaOf cfg op s = .ok)
-  | .count => Counted (counted op l.existed s)
-  | .ret => Counted s
-  | .lock => False
-  | .done => False
+def MidOK (cfg : Cfg) (c : Call) (pc : Pc) (l : Local) (s : State) : Prop :=
+  match c with
+  | .op op =>
+    (match pc with
+     | .check => Counted s
+     | .log => Counted s ∧ (op.kind = .create → quotaOf cfg op s = .ok)
+     | .store => Counted s ∧ (op.kind = .create → quotaOf cfg op s = .ok)
+     | .count => Counted (counted op l.existed s)
+     | .ret => Counted s
+     | .lock => False
+     | .scan => False
+     | .done => False)
+  | .recover =>
+    (match pc with
+     | .scan => True
+     | .count => l.scanN = s.kv.nodes.length ∧ l.scanE = s.kv.edges.length
+     | .ret => Counted s
+     | _ => False)
 
 structure Inv (cfg : Cfg) (sys : Sys) : Prop where
   wf : WF sys.shared.kv
   within : Within cfg sys.shared.kv
   free : sys.lock = none → Counted sys.shared
   mid : ∀ i th pc, sys.threads[i]? = some th → th.pc = some pc →
-          sys.lock = some i ∧ ∃ op rest, th.prog = op :: rest ∧ MidOK cfg op pc th.loc sys.shared
+          sys.lock = some i ∧ ∃ c rest, th.prog = c :: rest ∧ MidOK cfg c pc th.loc sys.shared
   held : ∀ i, sys.lock = some i → ∃ th pc, sys.threads[i]? = some th ∧ th.pc = some pc
 
 /-! ### the store step on the map -/
@@ -183,35 +192,35 @@ theorem micro_ret (cfg : Cfg) (op : Op) (s : State) (l : Local) :
 /-! ### one step of one thread -/
 
 /-- the call of thread `t` returns -/
-def finish (sys : Sys) (t : Nat) (th : Thread) (op : Op) (rest : List Op) (s' : State)
+def finish (sys : Sys) (t : Nat) (th : Thread) (op : Call) (rest : List Call) (s' : State)
     (lock' : Option Nat) (r : Res) : Sys :=
   { shared := s', lock := release lock' t,
     threads := sys.threads.set t { prog := rest, done := th.done ++ [(op, r)] } }
 
 /-- the call of thread `t` moves on to `pc'` -/
-def cont (sys : Sys) (t : Nat) (th : Thread) (op : Op) (rest : List Op) (s' : State)
+def cont (sys : Sys) (t : Nat) (th : Thread) (op : Call) (rest : List Call) (s' : State)
     (lock' : Option Nat) (pc' : Pc) (l' : Local) : Sys :=
   { shared := s', lock := lock',
     threads := sys.threads.set t { prog := op :: rest, pc := some pc', loc := l', done := th.done } }
 
-theorem stepThread_eq (I : Impl) (cfg : Cfg) (sys : Sys) (t : Nat) (th : Thread) (op : Op)
-    (rest : List Op) (hth : sys.threads[t]? = some th) (hprog : th.prog = op :: rest)
-    (hen : ¬ (th.pc.getD (I.start op) = .lock ∧ sys.lock ≠ none)) :
+theorem stepThread_eq (I : Impl) (cfg : Cfg) (sys : Sys) (t : Nat) (th : Thread) (op : Call)
+    (rest : List Call) (hth : sys.threads[t]? = some th) (hprog : th.prog = op :: rest)
+    (hen : ¬ (th.pc.getD (callStart I op) = .lock ∧ sys.lock ≠ none)) :
     stepThread I cfg sys t =
-      match I.micro cfg op (th.pc.getD (I.start op)) sys.shared th.loc with
+      match callMicro I cfg op (th.pc.getD (callStart I op)) sys.shared th.loc with
       | (s', _, .error e) =>
-          finish sys t th op rest s' (if th.pc.getD (I.start op) = .lock then some t else sys.lock) (.err e)
+          finish sys t th op rest s' (if th.pc.getD (callStart I op) = .lock then some t else sys.lock) (.err e)
       | (s', l', .ok pc') =>
           if pc' = .done then
-            finish sys t th op rest s' (if th.pc.getD (I.start op) = .lock then some t else sys.lock) .ok
-          else cont sys t th op rest s' (if th.pc.getD (I.start op) = .lock then some t else sys.lock) pc' l' := by
+            finish sys t th op rest s' (if th.pc.getD (callStart I op) = .lock then some t else sys.lock) .ok
+          else cont sys t th op rest s' (if th.pc.getD (callStart I op) = .lock then some t else sys.lock) pc' l' := by
   unfold stepThread
   simp only [hth, hprog, hen, if_false]
   rfl
 
-theorem stepThread_disabled (I : Impl) (cfg : Cfg) (sys : Sys) (t : Nat) (th : Thread) (op : Op)
-    (rest : List Op) (hth : sys.threads[t]? = some th) (hprog : th.prog = op :: rest)
-    (hen : th.pc.getD (I.start op) = .lock ∧ sys.lock ≠ none) :
+theorem stepThread_disabled (I : Impl) (cfg : Cfg) (sys : Sys) (t : Nat) (th : Thread) (op : Call)
+    (rest : List Call) (hth : sys.threads[t]? = some th) (hprog : th.prog = op :: rest)
+    (hen : th.pc.getD (callStart I op) = .lock ∧ sys.lock ≠ none) :
     stepThread I cfg sys t = sys := by
   unfold stepThread
   simp only [hth, hprog, hen, ne_eq, not_false_eq_true, and_self, if_true]
@@ -221,7 +230,7 @@ theorem lt_of_getElem? {α : Type} {l : List α} {i : Nat} {a : α} (h : l[i]? =
   exact h'
 
 /-- the invariant after a call returned, the shared state being exact -/
-theorem inv_finish (cfg : Cfg) (sys : Sys) (t : Nat) (th : Thread) (op : Op) (rest : List Op)
+theorem inv_finish (cfg : Cfg) (sys : Sys) (t : Nat) (th : Thread) (op : Call) (rest : List Call)
     (s' : State) (r : Res) (hth : sys.threads[t]? = some th)
     (hwf : WF s'.kv) (hw : Within cfg s'.kv) (hc : Counted s')
     (hoth : ∀ i th' pc, i ≠ t → sys.threads[i]? = some th' → th'.pc = some pc → False) :
@@ -238,7 +247,7 @@ theorem inv_finish (cfg : Cfg) (sys : Sys) (t : Nat) (th : Thread) (op : Op) (re
     exact absurd (hoth i th' pc hit hi hpc) id
 
 /-- the invariant after the call of the lock holder `t` moved on -/
-theorem inv_cont (cfg : Cfg) (sys : Sys) (t : Nat) (th : Thread) (op : Op) (rest : List Op)
+theorem inv_cont (cfg : Cfg) (sys : Sys) (t : Nat) (th : Thread) (op : Call) (rest : List Call)
     (s' : State) (pc' : Pc) (l' : Local) (hth : sys.threads[t]? = some th) (hprog : th.prog = op :: rest)
     (hwf : WF s'.kv) (hw : Within cfg s'.kv) (hm : MidOK cfg op pc' l' s')
     (hoth : ∀ i th' pc, i ≠ t → sys.threads[i]? = some th' → th'.pc = some pc → False) :
@@ -385,7 +394,7 @@ theorem drain_inv (cfg : Cfg) (hreg : cfg.registered = true) (fuel : Nat) (sys :
     · exact ih _ (step_inv cfg hreg sys _ h)
     · exact h
 
-theorem init_inv (cfg : Cfg) (progs : List (List Op)) : Inv cfg (init progs) := by
+theorem init_inv (cfg : Cfg) (progs : List (List Call)) : Inv cfg (init progs) := by
   refine ⟨⟨sorted_nil, sorted_nil⟩, ⟨fun m _ => Nat.zero_le m, fun m _ => Nat.zero_le m⟩,
     fun _ => ⟨rfl, rfl⟩, ?_, fun i hi => by simp [init] at hi⟩
   intro i th pc hi hpc
@@ -399,11 +408,11 @@ theorem init_inv (cfg : Cfg) (progs : List (List Op)) : Inv cfg (init progs) := 
 
 /-! ### the programs are executed in order: completed calls ++ remaining calls = the program -/
 
-def Shape (progs : List (List Op)) (sys : Sys) : Prop :=
+def Shape (progs : List (List Call)) (sys : Sys) : Prop :=
   sys.threads.length = progs.length
   ∧ ∀ (i : Nat) (th : Thread), sys.threads[i]? = some th → progs[i]? = some (th.done.map (·.1) ++ th.prog)
 
-theorem shape_set (progs : List (List Op)) (sys : Sys) (t : Nat) (th th' : Thread) (s' : State)
+theorem shape_set (progs : List (List Call)) (sys : Sys) (t : Nat) (th th' : Thread) (s' : State)
     (lk : Option Nat) (h : Shape progs sys) (hth : sys.threads[t]? = some th)
     (heq : th'.done.map (·.1) ++ th'.prog = th.done.map (·.1) ++ th.prog) :
     Shape progs { shared := s', lock := lk, threads := sys.threads.set t th' } := by
@@ -418,7 +427,7 @@ theorem shape_set (progs : List (List Op)) (sys : Sys) (t : Nat) (th th' : Threa
     simp only [List.getElem?_set_ne hne] at hi
     exact h.2 i thi hi
 
-theorem step_shape (I : Impl) (cfg : Cfg) (progs : List (List Op)) (sys : Sys) (t : Nat)
+theorem step_shape (I : Impl) (cfg : Cfg) (progs : List (List Call)) (sys : Sys) (t : Nat)
     (h : Shape progs sys) : Shape progs (stepThread I cfg sys t) := by
   cases hth : sys.threads[t]? with
   | none => simp [stepThread, hth]; exact h
@@ -426,10 +435,10 @@ theorem step_shape (I : Impl) (cfg : Cfg) (progs : List (List Op)) (sys : Sys) (
     cases hprog : th.prog with
     | nil => simp [stepThread, hth, hprog]; exact h
     | cons op rest =>
-      by_cases hen : th.pc.getD (I.start op) = .lock ∧ sys.lock ≠ none
+      by_cases hen : th.pc.getD (callStart I op) = .lock ∧ sys.lock ≠ none
       · rw [stepThread_disabled I cfg sys t th op rest hth hprog hen]; exact h
       · rw [stepThread_eq I cfg sys t th op rest hth hprog hen]
-        rcases hmic : I.micro cfg op (th.pc.getD (I.start op)) sys.shared th.loc with ⟨s', l', r⟩
+        rcases hmic : callMicro I cfg op (th.pc.getD (callStart I op)) sys.shared th.loc with ⟨s', l', r⟩
         cases r with
         | error e =>
           simp only [finish]
@@ -442,13 +451,13 @@ theorem step_shape (I : Impl) (cfg : Cfg) (progs : List (List Op)) (sys : Sys) (
           · simp only [cont]
             exact shape_set progs sys t th _ _ _ h hth (by simp [hprog])
 
-theorem run_shape (I : Impl) (cfg : Cfg) (progs : List (List Op)) (sched : List Nat) (sys : Sys)
+theorem run_shape (I : Impl) (cfg : Cfg) (progs : List (List Call)) (sched : List Nat) (sys : Sys)
     (h : Shape progs sys) : Shape progs (run I cfg sys sched) := by
   induction sched generalizing sys with
   | nil => exact h
   | cons t rest ih => exact ih _ (step_shape I cfg progs sys t h)
 
-theorem drain_shape (I : Impl) (cfg : Cfg) (progs : List (List Op)) (fuel : Nat) (sys : Sys)
+theorem drain_shape (I : Impl) (cfg : Cfg) (progs : List (List Call)) (fuel : Nat) (sys : Sys)
     (h : Shape progs sys) : Shape progs (drain I cfg fuel sys) := by
   induction fuel generalizing sys with
   | zero => exact h
@@ -458,7 +467,7 @@ theorem drain_shape (I : Impl) (cfg : Cfg) (progs : List (List Op)) (fuel : Nat)
     · exact ih _ (step_shape I cfg progs sys _ h)
     · exact h
 
-theorem init_shape (progs : List (List Op)) : Shape progs (init progs) := by
+theorem init_shape (progs : List (List Call)) : Shape progs (init progs) := by
   refine ⟨by simp [init], ?_⟩
   intro i th hi
   simp only [init, List.getElem?_map] at hi
